@@ -565,6 +565,9 @@ structure GhostCtx where
   clean      : Bool            -- running with unchanged timeout/frequency ever since the last start
   freqAtStart : Nat
   maxTotal   : Option Int      -- largest total ever in force; `none` once a negative (unbounded) total was in force
+  restarted  : Bool := false   -- the context went through a zero-height restart (op `restart`): the preparation cancelled
+                               -- and refunded whatever batch it had in flight and left it paused, so that even a one-shot
+                               -- context can be started again by its consumer and then gets a second batch number
 deriving Repr
 
 abbrev Ghost := Map CtxId GhostCtx
@@ -602,7 +605,7 @@ def cadence (g : Ghost) (t : Step) : Ghost × Viol :=
              | some ls => if gc.clean then chk (t.pre.height == ls + (gc.freqAtStart : Int))
                  s!"context stayed running with unchanged timeout/frequency {gc.freqAtStart}, yet consecutive batches started at {ls} and {t.pre.height}" else []
              | none => []) ++
-            chk (x.rep || y.batch ≤ 1) "a one-shot context got a second batch" ++
+            chk (x.rep || y.batch ≤ 1 || gc.restarted) "a one-shot context got a second batch" ++
             (match gc.maxTotal with
              | some m => chk (!x.rep || decide ((y.batch : Int) ≤ m)) s!"batch {y.batch} exceeds the largest total ever in force ({m})"
              | none => [])
